@@ -106,6 +106,8 @@ def lowerAsciiB (s : Str) : Str := s.map Char.toLower
 /-- `Name: value` lines of a header block (as text); `none`: a shape the model does not cover
     (folded lines, lines without a colon, bytes that are not UTF-8) -/
 def parseHeaderLine (l : Bytes) : Option (Option (Str × Str)) :=
+  if (stripEnd l).1.contains CR || (stripEnd l).1.contains LF then none   -- FeedParser sees several lines
+  else
   match Headers.utf8dec l with
   | none => none
   | some t =>
